@@ -1,6 +1,7 @@
 import UrcuVerif.Src.QueueLocal
 import UrcuVerif.Src.QueueRefine
 import UrcuVerif.Src.QueueRef
+import UrcuVerif.Src.QueueDeq
 /-!
 # Source refinement, component "queues": generated IR of wfcqueue / rculfqueue / urcu_ref ⊑ L2, thread-locally
 
@@ -127,6 +128,45 @@ theorem _cds_wfcq_node_init_atomic_refines (fuel : Nat) (priv : Loc → Option V
       lrun (.d3 q nd b) (out.events.filterMap (absEv L)) = some (.d4 q nd b) :=
   node_init_atomic_refines_env L fuel _ hk q nd b inp (by simp [bindParams, Gen.Src.«_cds_wfcq_node_init_atomic.params»]) hq
 
+/-- `sync_next`, event-typed form: never fails for *any* oracle; if every value it loaded is NULL or an object pointer
+its labels are L2's (no assumption on the oracle value consumed by the void `CDS_WFCQ_WAIT_SLEEP`). -/
+theorem ___cds_wfcq_node_sync_next_refines' (fuel : Nat) (priv : Loc → Option Val) (nk a q : Nat) (k : K) (b : Int)
+    (inp : List Val) (ha : L.addr nk = some a) (hk : k.blocking = decide (b ≠ 0)) :
+    ∃ out, exec fuel Gen.Src.«___cds_wfcq_node_sync_next»
+        ⟨bindParams Gen.Src.«___cds_wfcq_node_sync_next.params» [.ptr (.obj nk), .int b], priv⟩ inp = .ok out ∧
+      ((∀ l v mo, Event.ld l v mo ∈ out.events → Typed L v) →
+        ∃ p', lrun (.sync k q a) (out.events.filterMap (absEv L)) = some p' ∧
+          (((out.ctl = .blocked ∨ out.ctl = .fuel) ∧ p' = .sync k q a) ∨
+           (out.ctl = .ret (some (.int (-1))) ∧ b = 0 ∧ p' = syncWbPc k q a) ∨
+           (∃ v x, out.ctl = .ret (some v) ∧ dec L v = some x ∧ x ≠ 0 ∧ p' = syncGotPc k q a x))) :=
+  sync_next_refines_env' L fuel _ nk a q k b inp (by simp [bindParams, Gen.Src.«___cds_wfcq_node_sync_next.params»])
+    (by simp [bindParams, Gen.Src.«___cds_wfcq_node_sync_next.params»]) ha hk
+
+/-- **`___cds_wfcq_dequeue_with_state(head, tail, state, blocking)`** from L2's `e1 (.deq blocking) q` (after `callDeq`),
+both values of `blocking`, every loop budget.  `state` is NULL or a pointer to a private word other than `&attempt`,
+`head->node.next` and the configuration pseudo-global.  The run never fails; under the side condition "no value loaded
+from `head->node.next` is the head itself" (L2 invariant; L2's `syncGotPc` distinguishes the two `sync_next` call sites
+of dequeue by `a = q`) its labels are L2's and it ends as `DeqRes` says: cut at one of the dequeue pcs; NULL at
+`done null`; `CDS_WFCQ_WOULDBLOCK` (only if `!blocking`) at `done wouldblock`; a node `nd` at `done (node nd last)` with
+`*state == (last ? CDS_WFCQ_STATE_LAST : 0)`. -/
+theorem ___cds_wfcq_dequeue_with_state_refines (fuel : Nat) (priv : Loc → Option Val) (hk tk q : Nat) (b mbv : Int)
+    (inp : List Val) (sv : Val)
+    (hsv : sv = .int 0 ∨ ∃ sl, sv = .ptr sl ∧ sl ≠ .glob "&attempt" ∧ sl ≠ .field (.obj hk) "next" ∧
+      sl ≠ .glob "CONFIG_RCU_EMIT_LEGACY_MB")
+    (hq : L.addr hk = some q) (ht : L.tailOf tk = some q)
+    (hcfg : priv (.glob "CONFIG_RCU_EMIT_LEGACY_MB") = some (.int mbv)) (hwt : ∀ v ∈ inp, Typed L v) :
+    ∃ out, exec fuel Gen.Src.«___cds_wfcq_dequeue_with_state»
+        ⟨bindParams Gen.Src.«___cds_wfcq_dequeue_with_state.params» [.ptr (.obj hk), .ptr (.obj tk), sv, .int b], priv⟩
+        inp = .ok out ∧
+      ((∀ v mo, Event.ld (.field (.obj hk) "next") v mo ∈ out.events → v ≠ .ptr (.obj hk)) →
+        ∃ p', lrun (.e1 (.deq (decide (b ≠ 0))) q) (out.events.filterMap (absEv L)) = some p' ∧
+          DeqRes L q (decide (b ≠ 0)) b sv out p') :=
+  dequeue_refines_env L fuel _ hk tk q b mbv inp sv
+    (by simp [bindParams, Gen.Src.«___cds_wfcq_dequeue_with_state.params»])
+    (by simp [bindParams, Gen.Src.«___cds_wfcq_dequeue_with_state.params»])
+    (by simp [bindParams, Gen.Src.«___cds_wfcq_dequeue_with_state.params»])
+    (by simp [bindParams, Gen.Src.«___cds_wfcq_dequeue_with_state.params»]) hsv hq ht hcfg hwt
+
 /-- `___cds_wfcq_busy_wait(&attempt, blocking)`: no shared access at all (its events have no L2 label) -/
 theorem ___cds_wfcq_busy_wait_silent (fuel : Nat) (priv : Loc → Option Val) (al : Loc) (b c : Int) (inp : List Val)
     (hp : priv al = some (.int c)) :
@@ -195,6 +235,26 @@ example : ∃ out, exec 5 Gen.Src.«___cds_wfcq_node_sync_next»
 
 example := ___cds_wfcq_node_sync_next_refines L0 5 (priv0 0) 5 5 1 (.deq true) 1 [.int 0, .ptr (.obj 6)] rfl
   (by simp [K.blocking]) (by simp [Typed, dec, L0])
+
+/-- non-blocking dequeue on queue 1 holding the single node 5, `state = &st`: `ld1`, `sync`, `d2` (NULL), `d3`, `d4`
+(cmpxchg succeeds): 5 events, returns node 5 with `*state = CDS_WFCQ_STATE_LAST` -/
+example : ∃ out, exec 3 Gen.Src.«___cds_wfcq_dequeue_with_state»
+      ⟨bindParams Gen.Src.«___cds_wfcq_dequeue_with_state.params»
+        [.ptr (.obj 1), .ptr (.obj 11), .ptr (.glob "st"), .int 0], priv0 0⟩
+      [.ptr (.obj 5), .ptr (.obj 5), .int 0, .ptr (.obj 5)] = .ok out ∧
+    out.events.filterMap (absEv L0) = [.ldNext 1 5, .ldNext 1 5, .ldNext 5 0, .stNext 1 0, .casTail 1 5 1 5] ∧
+    lrun (.e1 (.deq false) 1) (out.events.filterMap (absEv L0)) = some (.done (.node 5 true)) ∧
+    out.ctl = .ret (some (.ptr (.obj 5))) ∧ out.env.priv (.glob "st") = some (.int 1) := by
+  simp [Gen.Src.«___cds_wfcq_dequeue_with_state», Gen.Src.«___cds_wfcq_dequeue_with_state.params»,
+    Gen.Src.«_cds_wfcq_empty», Gen.Src.«___cds_wfcq_node_sync_next», Gen.Src.«___cds_wfcq_busy_wait»,
+    Gen.Src.«_cds_wfcq_node_init_atomic», block, exec, iterate, eval,
+    evalArgs, execPrim, bindParams, Env.setVar, Env.setPriv, setDst, asLoc, bind, Except.bind, evalBin, evalUn, boolV,
+    Val.truthy, absEv, decNext, decTail, dec, L0, List.filterMap_cons, lrun, lstep, syncGotPc, K.blocking, priv0,
+    nonEmptyPc]
+
+example := ___cds_wfcq_dequeue_with_state_refines L0 3 (priv0 0) 1 11 1 0 0
+  [.ptr (.obj 5), .ptr (.obj 5), .int 0, .ptr (.obj 5)] (.ptr (.glob "st"))
+  (Or.inr ⟨_, rfl, by simp, by simp, by simp⟩) rfl rfl (by simp [priv0]) (by simp [Typed, dec, L0])
 
 end wfcq
 
